@@ -12,14 +12,16 @@ COQ_TARGETS = ["Harness/H16.vo"]
 ALLOWED_AXIOMS = []
 META = {
     "level_text": "Machine-checked proof (Coq, exact rational arithmetic) about a literal model of core.normalize (writing normalized_objectives onto the solution objects: "
-                  "a store keyed by object identity; the reference set is normalised once, in the constructor), distance_to_nearest / euclidean / manhattan distances and "
+                  "a store keyed by object identity; the reference set is normalised in the constructor and again at the start of every calculate), distance_to_nearest / euclidean / manhattan distances and "
                   "the calculate methods of EpsilonIndicator, GenerationalDistance, InvertedGenerationalDistance and Spacing: the model values unfold to the textbook formulas "
                   "(eps = max_r min_s max_k +-(s_k - r_k) in the declared direction; the exact ingredients of GD/IGD = the squared nearest-neighbour distances and the divisor; "
                   "spacing^2 = sum (d_i - mean)^2/(n-1) with d_i the smallest L1 distance to another listed object); they are 0 on the reference set itself, "
                   "GD/IGD/spacing ingredients are non-negative, eps never decreases when members get worse in their declared directions, GD/IGD/eps are +inf "
-                  "without a feasible member, and nothing depends on the order of the solutions. The model is tied to /repo on every run by a correspondence on dyadic grids "
+                  "without a feasible member, nothing depends on the order of the solutions, and calculate gives the textbook value from EVERY prior content of the objects' normalized_objectives attributes "
+                  "(no dependence on other indicators that touched the shared Solution objects earlier; the pre-repair variant is refuted by an Example). The model is tied to /repo on every run by a correspondence on dyadic grids "
                   "(eps, every squared Euclidean and every L1 distance compared exactly; the final sqrt/pow value through an exact algebraic relation with tolerance 2^-40) and an "
-                  "independent textbook oracle on the real classes.",
+                  "independent textbook oracle on the real classes, including histories in which other indicators (Hypervolume on the reference set, indicators with other bounds "
+                  "sharing objects) run between construction and calculate.",
     "level_note": "Trusted: Coq kernel + VM; the harness (literal printer, shard runner, the logging wrappers around math.sqrt in platypus.distance, distance_to_nearest and "
                   "manhattan_dist); the hand-written model is tied to the code only on the sampled inputs (1-5 objectives, all direction vectors, reference sets of 1-6 and sets of "
                   "0-7 solutions). sqrt and pow are NOT modelled: GD/IGD/spacing theorems are stated on the exact rational ingredients (value^2 * n^2 = sum of squared nearest "
@@ -342,6 +344,9 @@ def check_clauses(ctx, nobjs, dirs, ref, st, rng, exact, tag):
                 g3 = value(kind, r2, s2)
                 if g3[0] == "ok" and not rel_close(g3[1], g[1], 1e-12):
                     viol("%s:order-dependent" % kind, "%s %r -> %r after reordering" % (kind, g[1], g3[1]))
+    acts = [a for a in ACTIONS if (nobjs >= 2 or not a.startswith("hv"))]
+    rng.shuffle(acts)
+    check_history(ctx, nobjs, dirs, ref, st, acts[:rng.randrange(1, len(acts) + 1)], tag)
     check_spacing(ctx, nobjs, dirs, st, rng, tag)
 
 
@@ -451,38 +456,66 @@ FIXED = [
 
 
 
-# Outside the statement of C16 (which quantifies over ONE reference set and ONE approximation set): the reference set is
-# normalised once, onto the objects, so another indicator that re-normalises a shared object changes later results.  The probe
-# records what the real code does; set REPORT_HISTORY_DEPENDENCE = True to turn the observation into a violation.
-REPORT_HISTORY_DEPENDENCE = False
+# ----------------------------------------------------------------------------
+# history independence: other indicators touching the same Solution objects between construction and calculate
+# ----------------------------------------------------------------------------
+ACTIONS = ["hv_on_reference_set", "second_indicator_other_bounds_sharing_reference_object", "hv_other_bounds_on_everything",
+           "calculate_on_set_sharing_reference_objects", "second_indicator_built_from_the_approximation_set"]
+HIST = {"sequences": 0}
 
 
-def probe_history(ctx):
+def history_values(nobjs, dirs, ref, st, actions):
+    """build GD/IGD/eps on the reference set, then alternate `actions` with calls of calculate(set);
+    returns the list of [gd, igd, eps] after construction and after every action"""
     from platypus import GenerationalDistance, InvertedGenerationalDistance, EpsilonIndicator, Hypervolume
-    p = plat.mk_problem(2, [False, False])
-    ref = [plat.mk_solution(p, o) for o in ([0.0, 1.0], [0.5, 0.25], [1.0, 0.0])]
-    res = [plat.mk_solution(p, o) for o in ([0.25, 0.75], [0.75, 0.5])]
-    gd, igd, eps = GenerationalDistance(ref), InvertedGenerationalDistance(ref), EpsilonIndicator(ref)
-    before = [gd(res), igd(res), eps(res)]
-    GenerationalDistance([ref[0], plat.mk_solution(p, [-4.0, 5.0])])           # shares object ref[0]
-    after_ctor = [gd(res), igd(res), eps(res)]
-    gd, igd, eps = GenerationalDistance(ref), InvertedGenerationalDistance(ref), EpsilonIndicator(ref)
-    Hypervolume(reference_set=ref).calculate(ref)                              # inverts normalized_objectives of the reference objects
-    after_hv = [gd(res), igd(res), eps(res)]
-    ctx.count(9)
-    obs = {"gd,igd,eps fresh": before, "after constructing a second indicator sharing a reference object": after_ctor,
-           "after Hypervolume(reference_set=ref)(ref)": after_hv,
-           "history_dependent": before != after_ctor or before != after_hv,
-           "model": "Props/C16.v c16_shared_reference_objects_refuted predicts it (GD terms [1/8,1/8] -> [5/16,1/8])"}
-    ctx.coverage["observation_outside_statement(reference normalisation shared between indicators)"] = obs
-    if REPORT_HISTORY_DEPENDENCE and obs["history_dependent"]:
-        ctx.violation("indicator:reference-normalisation-overwritten-by-other-indicator",
-                      "GD/IGD/eps of the same arguments change after another indicator touched the reference objects: %r" % obs, {"kind": "history"})
+    p, robjs, sobjs = build(nobjs, dirs, ref, st)
+    gd, igd, eps = GenerationalDistance(robjs), InvertedGenerationalDistance(robjs), EpsilonIndicator(robjs)
+    rf = [r for r in robjs if r.constraint_violation == 0.0]
+    lo = [min(r.objectives[i] for r in rf) for i in range(nobjs)]
+    hi = [max(r.objectives[i] for r in rf) for i in range(nobjs)]
+    out = [[gd.calculate(sobjs), igd.calculate(sobjs), eps.calculate(sobjs)]]
+    for a in actions:
+        if a == "hv_on_reference_set":
+            Hypervolume(reference_set=robjs).calculate(robjs)
+        elif a == "second_indicator_other_bounds_sharing_reference_object":
+            far = plat.mk_solution(p, [x + 7.0 for x in rf[0].objectives])
+            GenerationalDistance([rf[0], far]).calculate([rf[-1]])
+        elif a == "hv_other_bounds_on_everything":
+            Hypervolume(minimum=[x - 1.0 for x in lo], maximum=[x + 3.0 for x in hi]).calculate(robjs + sobjs)
+        elif a == "calculate_on_set_sharing_reference_objects":
+            InvertedGenerationalDistance(robjs, d=2.0).calculate(rf[:1] + sobjs)
+            EpsilonIndicator(robjs).calculate(sobjs + rf[-1:])
+        elif a == "second_indicator_built_from_the_approximation_set":
+            fs = [s for s in sobjs if s.constraint_violation == 0.0]
+            if fs:
+                far = plat.mk_solution(p, [x - 5.0 for x in fs[0].objectives])
+                EpsilonIndicator([fs[0], far, rf[0]]).calculate(rf)
+        out.append([gd.calculate(sobjs), igd.calculate(sobjs), eps.calculate(sobjs)])
+    return out
+
+
+def check_history(ctx, nobjs, dirs, ref, st, actions, tag):
+    """GD/IGD/eps of the same indicator objects and the same set must not change when other indicators run in between"""
+    try:
+        vals = history_values(nobjs, dirs, ref, st, actions)
+    except Exception as e:  # noqa
+        ctx.violation("indicator:raises-in-history", "%s %s: %s in history %r on %r" % (tag, type(e).__name__, e, actions, show(nobjs, dirs, ref, st)),
+                      {"kind": "history", "case": to_json(nobjs, dirs, ref, st), "actions": actions})
+        return
+    ctx.count(3 * len(vals))
+    HIST["sequences"] += 1
+    for k, v in enumerate(vals[1:]):
+        if v != vals[0]:
+            ctx.violation("indicator:value-depends-on-earlier-indicator-calls",
+                          "%s [gd, igd, eps] = %r right after construction but %r after the other-indicator calls %r; %r" % (
+                              tag, vals[0], v, actions[:k + 1], show(nobjs, dirs, ref, st)),
+                          {"kind": "history", "case": to_json(nobjs, dirs, ref, st), "actions": actions})
+            return
 
 
 def run(ctx):
     rng = ctx.rng
-    probe_history(ctx)
+    HIST["sequences"] = 0
     cases = [(n, list(d), list(r), list(s)) for n, d, r, s in FIXED]
     per = ctx.scale(14, 80)
     for nobjs in (1, 2, 3, 4, 5):
@@ -553,6 +586,8 @@ def run(ctx):
             ctx.mark(repr(to_json(nobjs, dirs, ref, st)))
         # --- oracle ---
         check_clauses(ctx, nobjs, dirs, ref, st, rng, True, "[dyadic grid]")
+    check_history(ctx, 2, [False, False], [(100, [0.0, 1.0], 0.0), (101, [0.5, 0.25], 0.0), (102, [1.0, 0.0], 0.0)],
+                  [(0, [0.25, 0.75], 0.0), (1, [0.75, 0.5], 0.0)], list(ACTIONS), "[fixed history]")
     dist["direction_vectors"] = len(dist["direction_vectors"])
     dist["discarded_inexact"] = inexact
     for c in cases[len(FIXED):len(FIXED) + 2] + cases[-2:]:
@@ -566,6 +601,7 @@ def run(ctx):
         dirs = [rng.random() < 0.5 for _ in range(nobjs)]
         check_clauses(ctx, *gen_float_case(rng, nobjs, dirs), rng, False, "[arbitrary floats, tolerance 1e-9]")
     dist["arbitrary_float_cases(oracle only, tolerance 1e-9)"] = nfl
+    ctx.coverage["history_sequences_checked(other indicators between construction and calculate; values must be bitwise unchanged)"] = HIST["sequences"]
     ctx.coverage["input_distribution"] = dist
     ctx.coverage["tolerance_statement"] = ("the ONLY tolerance of the framework: the final float v of GD/IGD/spacing is accepted iff |(v*n)^2 - sum t_i| (d=2), "
                                            "|v*n - sum r_i| and |r_i^2 - t_i| (d=1), |v^2 - q| (spacing) are <= 2^-40 * max(1, |exact|), where t_i, q are the model's exact "
@@ -608,7 +644,11 @@ def replay(ctx, data):
             if e1[0] == "ok" and e2[0] == "ok" and e2[1] < e1[1] - (0 if rp.get("exact") else 1e-9):
                 ctx.violation(data.get("key", "eps:decreases-when-members-get-worse"), "[replay] eps %r -> %r" % (e1[1], e2[1]), rp)
     elif rp.get("kind") == "history":
-        probe_history(ctx)
+        nobjs, dirs, ref, st = from_json(rp["case"])
+        ctx.sample(show(nobjs, dirs, ref, st, actions=rp["actions"]))
+        check_history(ctx, nobjs, dirs, ref, st, rp["actions"], "[replay]")
+        for perm in itertools.permutations([a for a in ACTIONS if (nobjs >= 2 or not a.startswith("hv"))]):
+            check_history(ctx, nobjs, dirs, ref, st, list(perm), "[replay, all orders]")
     elif rp.get("kind") == "spacing":
         nobjs, dirs, ref, st = from_json(rp["case"])
         for seed in range(4):
